@@ -31,6 +31,49 @@ def run(rep, prog, tier):
     r6(rep, prog)
     r7(rep, prog)
     r8(rep, prog)
+    # reader side of the same protocol: a reader in the middle of loading is protected because it
+    # holds META_LOCK from the meta.json read until every listed segment file is open (C05-R1)
+    rep.rule("C10-R9", "reader-side protection: InnerIndexReader::open_segment_readers holds the META_LOCK guard over the meta.json read and every SegmentReader::open (same rule as C05-R1), so GC cannot delete a listed file before it is opened")
+    from ..report import Retag
+    from .c05 import r1 as reader_region
+    reader_region(Retag(rep, "C10-R9"), prog)
+    r10(rep, prog)
+
+
+def r10(rep, prog):
+    """the files meta.json references stay 'living' even when the segment manager no longer lists
+    them (delete_all_documents, rollback in progress): the updater keeps the SegmentMetas of the
+    last *published* meta alive, so they stay in the inventory GC consults"""
+    R = "C10-R10"
+    rep.rule(R, "the last published commit stays protected: InnerSegmentUpdater holds (outside the segment manager) a value whose type reaches SegmentMeta — the cached copy of the published IndexMeta — and store_meta replaces it with (a clone of) the IndexMeta that was just saved")
+    adt = prog.adts.get(SU + "InnerSegmentUpdater")
+    if not rep.check(adt is not None, R, "struct InnerSegmentUpdater", "found", "cannot establish: InnerSegmentUpdater not found"):
+        return
+    SMETA = "tantivy::index::index_meta::SegmentMeta"
+    holders = []
+    for f in adt["variants"][0]["fields"]:
+        if f["name"] in ("segment_manager", "index", "merge_operations"):
+            continue   # the live registers / the inventory itself / merge bookkeeping do not pin the *published* state
+        hits = prog.type_mentions(adt["_crate"], f["ty"], lambda row: row["k"] == "adt" and row.get("def") == SMETA)
+        if hits:
+            holders.append(f["name"])
+    rep.check(bool(holders), R, "the updater pins the SegmentMetas of the published meta", "field(s) %s reach SegmentMeta" % holders,
+              "no field of InnerSegmentUpdater (outside the segment manager) holds SegmentMeta any more: after delete_all_documents (or while a rollback is in progress) the files that meta.json still "
+              "references are no longer 'living' and the next garbage collection deletes the last commit", site=adt["span"])
+    sb = get_body(rep, prog, R, SU + "SegmentUpdater::store_meta")
+    if sb is not None and holders:
+        ok = False
+        for bi in sb.normal_blocks():
+            for st in sb.stmts(bi):
+                # the write goes through the RwLock guard: look for the Arc::new(clone(param)) value
+                pass
+        lv = set()
+        for b, t in sb.calls():
+            if t.get("f", "").endswith("Arc::<T>::new"):
+                lv |= provenance(sb, op_local(t["args"][0]))
+        ok = ("param", 2) in lv
+        rep.check(ok, R, "store_meta caches the IndexMeta it is given", "Arc::new(index_meta.clone())", "store_meta no longer stores (a clone of) its IndexMeta parameter (%s)" % sorted(lv), site=sb.span)
+        rep.check("tantivy::index::index_meta::IndexMeta" in sb.local_ty_str(2), R, "store_meta receives the whole IndexMeta", "parameter type &IndexMeta", "store_meta's parameter is no longer an IndexMeta", site=sb.span)
 
 
 def r1(rep, prog):
